@@ -80,10 +80,12 @@ fn body(ch: &Ch) -> Run {
   // forces the whole build to restart with cache busting (metadata then loads
   // with CacheSetting::Reload)
   let restart = ch.choose("stale_cached_metadata_forces_a_cache_busting_restart", 2) == 1;
+  // the same two imports (two versions of one package in one build) without the stale metadata
+  let two_versions = restart || ch.choose("two_versions_of_one_package", 2) == 1;
 
   let sched = Sched::new(SchedMode::Immediate);
   let loader = ScriptedLoader::new(sched);
-  loader.add_text("https://x/root.ts", &if restart { format!("{ROOT}import \"jsr:@s/r@1\";\nimport \"jsr:@s/r@2\";\n") } else { ROOT.to_string() });
+  loader.add_text("https://x/root.ts", &if two_versions { format!("{ROOT}import \"jsr:@s/r@1\";\nimport \"jsr:@s/r@2\";\n") } else { ROOT.to_string() });
   let pr = RegPackage {
     name: "@s/r".into(),
     versions: vec![RegVersion::new("1.0.0", &[("/mod.ts", "export const r = 1;\n")]), RegVersion::new("2.0.0", &[("/mod.ts", "export const r = 2;\n")])],
@@ -141,7 +143,7 @@ fn body(ch: &Ch) -> Run {
   {
     let served_reload = Rc::new(served_reload.clone());
     *loader.injector.borrow_mut() = Some(Box::new(move |call: &LoadCall, _| {
-      if call.kind == "load" && call.specifier.as_str() == "https://jsr.io/@s/r/meta.json" && call.cache_setting == CacheSetting::Use {
+      if restart && call.kind == "load" && call.specifier.as_str() == "https://jsr.io/@s/r/meta.json" && call.cache_setting == CacheSetting::Use {
         return Answer::Load(Ok(Some(LoadResponse::Module {
           content: stale_meta.clone(),
           mtime: None,
@@ -252,6 +254,7 @@ fn body(ch: &Ch) -> Run {
     "redirecting_url_in_lockfile": redirect_lock == Lock::Matching,
     "lockfile_redirect_seeded_from_to_seeded_target": lockfile_redirect,
     "stale_cached_metadata_forces_a_cache_busting_restart": restart,
+    "two_versions_of_one_package": two_versions,
     "reloaded_afterwards": if reload_of > 0 { Some(RES[reloadable[reload_of - 1]].url) } else { None },
   });
   let case = |extra: Value| {
@@ -441,6 +444,21 @@ fn body(ch: &Ch) -> Run {
             case(json!({})),
           );
         }
+      }
+    }
+  }
+  if two_versions {
+    // both versions of @s/r are new to the lockfile: each manifest is recorded
+    for v in &pr.versions {
+      let nv = format!("@s/r@{}", v.version);
+      let want = format!("set_manifest {nv} {}", LoaderChecksum::r#gen(&v.manifest_json("@s/r").to_string().into_bytes()));
+      let w: Vec<&String> = writes.iter().filter(|w| w.starts_with(&format!("set_manifest {nv} "))).collect();
+      if w.is_empty() || w.iter().any(|x| **x != want) {
+        run.violate(
+          "new-manifest-not-recorded-faithfully@second-version-of-a-package",
+          format!("expected lockfile write(s) `{want}`, got {w:?}"),
+          case(json!({})),
+        );
       }
     }
   }
